@@ -25,8 +25,9 @@ def _post(ctx):
 CFG = dict(
     prop="C18", level="proof", harness="c18",
     props_files=["theories/Props/C18.v"], corr_file="theories/Corr/C18.v", corr_module="Corr.C18",
-    groups={"lint": True, "fix": True, "fixstdin": True, "stdinflag": False},
-    show_fn={"lint": "model_lint", "fix": "model_fix", "fixstdin": "model_fixstdin", "stdinflag": "model_stdinflag"},
+    groups={"lint": True, "fix": True, "fixstdin": True, "stdinflag": False, "fed": False, "fixrep": True},
+    show_fn={"lint": "model_lint", "fix": "model_fix", "fixstdin": "model_fixstdin", "stdinflag": "model_stdinflag", "fed": "model_fed",
+             "fixrep": "model_fixrep"},
     pre=_pre, post=_post, shard=150,
     design_ref="DESIGN.md 6.18",
     technique="Coq proof (decision logic of run_lint / run_lint_stdin / run_fix / run_fix_stdin and the three formatters over abstract "
@@ -36,7 +37,9 @@ CFG = dict(
                "stdin decides like a one-file path run, fix exits 1 iff an unfixable violation was found, writes every file's fixed text and "
                "nothing when nothing is reported. C18_lint_order / C18_lint_shared / C18_verbosity_agree: with the formatter as one object whose has_fail "
                "state is threaded through the dispatches, the exit code and every file's lines are independent of the dispatch order, of the "
-               "configured verbosity (0 upwards) and of the format. The model is tied to the binary built from the tree on every run.",
+               "configured verbosity (0 upwards) and of the format. C18_formatter_fed / C18_lint_front / C18_fix_front: the end of Linter::lint_parsed hands "
+               "the formatter exactly the violations of the returned LintedFile (the collected ones the file's ignore mask does not cover), so what lint and "
+               "fix print, count and exit with is the library's result. The model is tied to the binary built from the tree on every run.",
     level_note="Trusted: Coq kernel; hand-written model (tie = sampled correspondence); that path, directory and stdin entry points hand the "
                "same violations to the formatter as Linter::lint_string is established by the correspondence runs only; the text of the "
                "printed lines is abstracted to (line, column, rule code); no violation with warning=true exists in today's code.",
@@ -47,9 +50,15 @@ CFG = dict(
          "multisets + header (PASS/FAIL) per file + exit status, "
          "`sqruff fix --force` on a directory and on a path (exit status, mtimes, contents) and `sqruff fix -` (stdout, exit status), each "
          "compared with the Gallina model fed with Linter::lint_string's violations / fix_string for the same content, and directly with "
-         "the property text. non-trivial = at least one violation in the linted files",
+         "the property text; what `sqruff fix` prints is compared with the library's violations as well (group fixrep). Class `masked`: statements "
+         "decorated with noqa directives (line / range, all / named rules, malformed, inline / block comments) so that violations with and without "
+         "a rule (parse errors, malformed directives) are covered by a directive. Library level: a recording implementation of the public Formatter "
+         "trait attached to Linter::lint_string and Linter::lint_paths (lint and fix mode): handed once per file, exactly the returned violations, none "
+         "covered by the file's own ignore mask; group fed: the end of lint_parsed (inputs rebuilt with parse_string + lint_fix_parsed + "
+         "IgnoreMask::is_masked) against its model. non-trivial = at least one violation in the linted files",
     assumptions=["H_flags (monitored, blocking): no violation carries ignore=true",
                  "contents are ASCII without '-- sqlfluff' in-file configuration lines (stdin mode panics on those: C03)",
                  "verbose is within its documented range 0-2 (below 0 the human format is silent and exits 0: C18_human_quiet)",
-                 "the library reference is Linter::lint_string with the same configuration text the binary reads through --config"],
+                 "the library reference is Linter::lint_string with the same configuration text the binary reads through --config",
+                 "IgnoreMask::is_masked is an oracle of the lint_parsed model (recorded per violation; the mask itself is C10)"],
 )
